@@ -11,6 +11,10 @@
    closed) is a single step of Run because Run does not proceed until the
    executor goroutine has closed the channel.
 
+   The context handed to Run is a sticky flag of the state; each Run says
+   whether it got cancelled before the Run began ([r_shutdown]) or during
+   the Run between its two readings of ctx.Err() ([r_late]).
+
    Times are integer milliseconds (Z).  The two constants are read back
    from the source on every run of the check (harness extractor) and
    compared with the values below by Corr.v. *)
@@ -48,9 +52,10 @@ Record state := mkState {
   s_until : option Z;                     (* schedulerMayThinkExecutingUntil *)
   s_next : Z;                             (* nextSynchronizationAt *)
   s_slot : option slot;
-  s_nextid : N }.
+  s_nextid : N;
+  s_cancelled : bool }.                   (* ctx.Err() != nil has been true: a cancelled context stays cancelled *)
 
-Definition init (t0 : Z) : state := mkState RIdle false None t0 None 0%N.
+Definition init (t0 : Z) : state := mkState RIdle false None t0 None 0%N false.
 
 (* Executor thread events. *)
 Inductive xev :=
@@ -67,8 +72,16 @@ Inductive reply :=
 | RpcErr
 | Reply (ts : option Z) (ds : desired).   (* ts = None: invalid timestamp *)
 
+(* Run reads ctx.Err() twice: in the termination test at the top and again
+   right before the request is sent ("If we need to shut down, we should
+   never be performing blocking Synchronize() calls").  The context can be
+   cancelled in between: while CheckReadiness runs, or while Run sleeps in
+   the select on timer/updates.  (A cancellation while the RPC is in flight
+   has no effect on this Run's request.)  The context itself is modelled as
+   the sticky flag [s_cancelled]; the two inputs say when it got cancelled. *)
 Record rin := mkRin {
-  r_shutdown : bool;                      (* ctx.Err() != nil *)
+  r_shutdown : bool;                      (* the context was cancelled before this Run began (ctx.Err() != nil at the top) *)
+  r_late : bool;                          (* it got cancelled during this Run, after the first test and before the second *)
   r_now : Z;                              (* clock reading during this Run *)
   r_ready : bool;                         (* CheckReadiness succeeds *)
   r_sel : list xev;                       (* executor steps while Run sleeps in select *)
@@ -194,20 +207,30 @@ Definition stop_outs (sl : option slot) : list out :=
 
 Definition touch (next : Z) : option Z := Some (next + grace_ms).
 
+(* ctx.Err() != nil at the two places where Run reads it *)
+Definition sd_top (s : state) (r : rin) : bool := s_cancelled s || r_shutdown r.
+Definition sd_sync (s : state) (r : rin) : bool := sd_top s r || r_late r.
+
+Definition set_cancelled (s : state) (b : bool) : state :=
+  mkState (s_rep s) (s_prefer s) (s_until s) (s_next s) (s_slot s) (s_nextid s) b.
+
 Definition run_step (s : state) (r : rin) : state * list out :=
   let now := r_now r in
   (* termination test *)
-  if r_shutdown r && match s_until s with None => true | Some u => u <? now end
-  then (s, [ORet true ENone])
+  if sd_top s r && match s_until s with None => true | Some u => u <? now end
+  then (set_cancelled s (sd_sync s r), [ORet true ENone])
   else
   (* readiness *)
   let need_ready := negb (is_some (s_until s)) in
-  if need_ready && negb (r_ready r) then (s, [OReady; ORet true EReady])
+  if need_ready && negb (r_ready r) then (set_cancelled s (sd_sync s r), [OReady; ORet true EReady])
   else
   let o1 := if need_ready then [OReady] else [] in
   let '(rep, next, sl, o2) := phase_updates (s_rep s) (s_next s) now (s_slot s) (r_sel r) in
   let '(p, cur_exec) := prefer_of rep (s_until s) in
-  let prefer := if r_shutdown r then true else p in
+  (* "if ctx.Err() != nil { PreferBeingIdle = true; ctx = context.Background() }":
+     the second reading of the context; the RPC always goes out on a live one *)
+  let cn := sd_sync s r in
+  let prefer := if cn then true else p in
   let o3 := [OSync rep prefer true] in
   let '(sl, o4) := match sl with
                    | Some x => let '(x', o) := xsteps x (r_sync r) in (Some x', o)
@@ -217,26 +240,26 @@ Definition run_step (s : state) (r : rin) : state * list out :=
   let pre := o1 ++ o2 ++ o3 ++ o4 in
   match r_reply r with
   | RpcErr =>
-    (mkState rep prefer until next sl (s_nextid s), pre ++ [ORet false ESync])
+    (mkState rep prefer until next sl (s_nextid s) cn, pre ++ [ORet false ESync])
   | Reply None _ =>
-    (mkState rep prefer until next sl (s_nextid s), pre ++ [ORet false ETs])
+    (mkState rep prefer until next sl (s_nextid s) cn, pre ++ [ORet false ETs])
   | Reply (Some ts) ds =>
     match ds with
     | DExec d =>
       let id := s_nextid s in
       (mkState (RExec d StStarted) prefer (touch ts) ts
-               (Some (mkSlot id d [] None false false)) (N.succ id),
+               (Some (mkSlot id d [] None false false)) (N.succ id) cn,
        pre ++ stop_outs sl ++ [OStart id d false; ORet false ENone])
     | DExecBad =>
-      (mkState rep prefer until ts sl (s_nextid s), pre ++ [ORet false EStart])
+      (mkState rep prefer until ts sl (s_nextid s) cn, pre ++ [ORet false EStart])
     | DIdle =>
-      (mkState RIdle prefer None ts None (s_nextid s), pre ++ stop_outs sl ++ [ORet true ENone])
+      (mkState RIdle prefer None ts None (s_nextid s) cn, pre ++ stop_outs sl ++ [ORet true ENone])
     | DUnknown =>
-      (mkState rep prefer until ts sl (s_nextid s), pre ++ [ORet false EUnknown])
+      (mkState rep prefer until ts sl (s_nextid s) cn, pre ++ [ORet false EUnknown])
     | DNone =>
       if cur_exec
-      then (mkState rep prefer (touch ts) ts sl (s_nextid s), pre ++ [ORet false ENone])
-      else (mkState rep prefer None ts sl (s_nextid s), pre ++ [ORet true ENone])
+      then (mkState rep prefer (touch ts) ts sl (s_nextid s) cn, pre ++ [ORet false ENone])
+      else (mkState rep prefer None ts sl (s_nextid s) cn, pre ++ [ORet true ENone])
     end
   end.
 
@@ -247,7 +270,7 @@ Definition step (s : state) (e : event) : state * list out :=
     match s_slot s with
     | None => (s, [OX x XIgnored])
     | Some sl => let '(sl', o) := xstep sl x in
-                 (mkState (s_rep s) (s_prefer s) (s_until s) (s_next s) (Some sl') (s_nextid s), o)
+                 (mkState (s_rep s) (s_prefer s) (s_until s) (s_next s) (Some sl') (s_nextid s) (s_cancelled s), o)
     end
   end.
 
